@@ -4,9 +4,18 @@ Property theorems only.
 -/
 import SxVerif.Model.Recv
 import SxVerif.Spec.Recv
+import SxVerif.Generated.Problems
+import SxVerif.Generated.Receiver
 
 namespace SxVerif.C20
 open SxVerif.Recv SxVerif.Spec.Recv
+
+/-- (T) the translator recognised the shape of the receive loop of pkg/packet/receiver.go: it leaves in exactly
+    four places (ctx at the loop head, a broken socket, ctx while reporting a read error, ctx while reporting a
+    processing error), comes round early in exactly two (a temporary error; after the constant pause that follows an
+    unknown error) and hands every frame that was read without an error to the processor — no count of failures and
+    no property of the capture info ends the loop or skips a frame (`Model/Recv.loop` is that loop) -/
+theorem translator_clean : SxVerif.Generated.translatorProblems = [] := by decide
 
 /-- the code's two classification functions realise the property's three kinds on the vocabulary -/
 theorem classify_matches_kind (e : Err) :
